@@ -16,7 +16,10 @@ for t in $TAGS; do
   for pid in $pids; do
     out=$(SA_REPO=$SCR/repo SA_EVIDENCE_DIR=$SCR/ev ./check $pid 2>&1); rc=$?
     rule=$(echo "$out" | grep -oE "  C[0-9]+\.[a-z-]+" | sort | uniq -c | awk '{print $2"x"$1}' | tr '\n' ' ')
-    if [ $rc -eq 1 ]; then echo "$t: DETECTED by $pid: $rule"; else echo "$t: MISSED by $pid (rc=$rc)"; miss=1; fi
+    exp=$(python3 -c "import json;print(json.load(open('seeded/$t/meta.json')).get('expected',''))" 2>/dev/null)
+    if [ $rc -eq 1 ]; then echo "$t: DETECTED by $pid: $rule";
+    elif [ $rc -eq 2 ] && [ "$exp" = "analysis-error" ]; then echo "$t: FAILS-CLOSED in $pid (ANALYSIS-ERROR, exit 2 - no verdict; recorded as such)";
+    else echo "$t: MISSED by $pid (rc=$rc)"; miss=1; fi
   done
 done
 exit $miss
